@@ -3,6 +3,7 @@ package main
 import (
 	"go/token"
 	"go/types"
+	"math/big"
 	"strings"
 
 	"golang.org/x/tools/go/ssa"
@@ -105,6 +106,17 @@ func init() {
 		return nv
 	}
 	intrinsics["(*sync/atomic.Uint64).Load"] = func(e *Exec, a []Value) Value { return fieldV(a[0]).V }
+	intrinsics["(*sync/atomic.Bool).Store"] = func(e *Exec, a []Value) Value {
+		c := fieldV(a[0])
+		b := a[1].(VBool).T
+		w, _ := typeWS(c.Typ)
+		if intMode {
+			c.V = VInt{Ite(b, IntC(big.NewInt(1)), IntC(bigZero()))}
+		} else {
+			c.V = VInt{Ite(b, BVu(w, 1), BVu(w, 0))}
+		}
+		return nil
+	}
 	intrinsics["(*sync/atomic.Bool).Load"] = func(e *Exec, a []Value) Value {
 		v := fieldV(a[0]).V.(VInt).T
 		return VBool{Not(Eq(v, idxC(v, 0)))}
